@@ -74,7 +74,7 @@ def _raw_func(tree: ast.Module, cls: str, name: str) -> ast.FunctionDef:
 def _func(tree: ast.Module, cls: str, name: str) -> ast.FunctionDef:
     """The method, normalised: calls of one-expression helper functions (nested in the method or at module level) are
     replaced by the helper's expression, so that extracting or inlining such a helper does not change what is read."""
-    return _loops_to_updates(_inline_struct_consts(_inline_helpers(_raw_func(tree, cls, name), tree), tree))
+    return _split_packed_writes(_loops_to_updates(_inline_struct_consts(_inline_helpers(_raw_func(tree, cls, name), tree), tree)))
 
 
 # ------------------------------------------------------------------------------------------------ normalisation
@@ -380,6 +380,41 @@ def _loops_to_updates(fn: ast.FunctionDef) -> ast.FunctionDef:
     return fn
 
 
+def _split_packed_writes(fn: ast.FunctionDef) -> ast.FunctionDef:
+    """`file.write(pack(...) + REST)`  ->  `file.write(pack(...))`; `file.write(REST)` (one write of a concatenation whose
+    head is a packed number vs two writes; the operands are evaluated in the same order)."""
+    def is_pack(n):
+        return isinstance(n, ast.Call) and ast.unparse(n.func) == 'pack'
+
+    def operands(n):
+        return operands(n.left) + [n.right] if isinstance(n, ast.BinOp) and isinstance(n.op, ast.Add) else [n]
+
+    def split(st):
+        if not (isinstance(st, ast.Expr) and isinstance(st.value, ast.Call) and ast.unparse(st.value.func) == 'file.write'
+                and len(st.value.args) == 1 and not st.value.keywords):
+            return [st]
+        ops = operands(st.value.args[0])
+        if len(ops) < 2 or not is_pack(ops[0]):
+            return [st]
+        rest = ops[1]
+        for o in ops[2:]:
+            rest = ast.BinOp(left=rest, op=ast.Add(), right=o)
+        mk = lambda arg: ast.copy_location(ast.Expr(value=ast.Call(func=st.value.func, args=[arg], keywords=[])), st)
+        return [mk(ops[0])] + split(mk(rest))
+
+    class W(ast.NodeTransformer):
+        def generic_visit(self, node):
+            super().generic_visit(node)
+            for field in ('body', 'orelse', 'finalbody'):
+                b = getattr(node, field, None)
+                if isinstance(b, list) and b and isinstance(b[0], ast.stmt):
+                    setattr(node, field, [x for st in b for x in split(st)])
+            return node
+    fn = W().visit(fn)
+    ast.fix_missing_locations(fn)
+    return fn
+
+
 def _enc_arg(node: ast.AST | None, where) -> str:
     if node is None:
         return 'EncAscii'
@@ -398,19 +433,23 @@ def _parents(root: ast.AST) -> dict:
     return par
 
 
-def _encoding_assignment(fn: ast.FunctionDef, expect: str) -> None:
-    for n in ast.walk(fn):
-        if isinstance(n, ast.Assign) and ast.unparse(n.targets[0]) == 'encoding':
-            if ast.unparse(n.value) != expect:
-                _fail(f'{fn.name}: unrecognised `encoding = {ast.unparse(n.value)}`', n)
-            return
-    _fail(f'{fn.name}: no `encoding = ...` assignment')
+def _encoding_assignment(fn: ast.FunctionDef, kind: str) -> None:
+    """The single `encoding = <utf8 or ascii, by the unicode mode>` of a writer (kind 'modes': the three-valued parameter)
+    or of parse_bin (kind 'bool').  Only its shape is required here (read semantically: any spelling of the test,
+    either branch order); which codec each mode selects goes into gen_hdr (_header_cfg) and is an obligation there."""
+    enc = [n for n in ast.walk(fn) if isinstance(n, ast.Assign) and ast.unparse(n.targets[0]) == 'encoding']
+    if len(enc) != 1:
+        _fail(f'{fn.name}: expected exactly one `encoding = ...` assignment, found {len(enc)}')
+    if kind == 'modes':
+        _ifexp_modes(enc[0].value, UTF8, ASCII, enc[0])
+    else:
+        _ifexp_bool(enc[0].value, UTF8, ASCII, enc[0])
 
 
 # ------------------------------------------------------------------------------------------------ parse_bin
 def _parse_bin(fn: ast.FunctionDef) -> dict:
     out: dict = {'enc_read': {}}
-    _encoding_assignment(fn, "'utf8' if unicode else 'ascii'")
+    _encoding_assignment(fn, 'bool')
     par = _parents(fn)
     # the split test
     # the local that holds the type byte, whatever it is called: `attr_type = IND_TO_VALTYPE[D]`, `[D] = struct_read('<B', file)`
@@ -500,7 +539,7 @@ def _parse_bin(fn: ast.FunctionDef) -> dict:
 # ------------------------------------------------------------------------------------------------ export_binary
 def _export_binary(fn: ast.FunctionDef) -> dict:
     out: dict = {'enc_write': {}}
-    _encoding_assignment(fn, "'utf8' if unicode != 'ascii' else 'ascii'")
+    _encoding_assignment(fn, 'modes')
     par = _parents(fn)
     src = [ast.unparse(n) for n in ast.walk(fn) if isinstance(n, ast.stmt)]
     # the local that holds the type code, whatever it is called: `T = VAL_TYPE_TO_IND[attr.type]`
@@ -1439,8 +1478,10 @@ def _kv2_tokenizer_kwargs(fn: ast.FunctionDef) -> list[tuple[str, bool]]:
     if len(calls) != 1:
         _fail(f'parse_kv2: expected one Tokenizer(...) call, found {len(calls)}')
     c = calls[0]
-    if [ast.unparse(a) for a in c.args] != ['file']:
+    # Tokenizer(data, filename=None, error=..., *, <options>): the file name only labels error messages
+    if not c.args or ast.unparse(c.args[0]) != 'file' or len(c.args) > 2 or (len(c.args) == 2 and not _pure_arg(c.args[1])):
         _fail(f'parse_kv2: unrecognised `{ast.unparse(c)}`', c)
+    c.keywords = [k for k in c.keywords if not (k.arg == 'filename' and len(c.args) == 1 and _pure_arg(k.value))]
     out = []
     known = {'string_bracket', 'string_parens', 'allow_escapes', 'allow_star_comments', 'preserve_comments',
              'colon_operator', 'plus_operator'}
